@@ -41,6 +41,7 @@ type run struct {
 	decisions int
 	simStart  time.Time
 	stuck     bool
+	inTx      bool
 	stalled   map[*simmongo.Pending]int // database commands the simulated database is slow to answer
 }
 
